@@ -108,6 +108,18 @@ PROPS["C07"] = dict(
                   "float64 arithmetic compared on exactly representable (dyadic) coordinates only"],
     assumptions=["ids identify nodes (a node's bounds do not change while it is stored)", "no integer overflow, finite floats"],
 )
+PROPS["C03"] = dict(
+    n_quick=16000, n_thorough=1600000, shards=8, coq_dirs=["C03"],
+    rule="cases: a configuration D1..D16, a type (f64 / f128) and two raw operands: edge values (0, +-1 raw, +-half, +-3/2, +-5/2 units, whole "
+         "numbers, sqrt(2^63) neighbours, Max/M, Max, Min), random by bit length, for f128 also values beyond 64 bits and +-2^127; every "
+         "method is called: Add Sub Mul Div Mod Abs Neg Trunc Ceil Round Min Max Inc Dec comparisons, From/As/CheckedAs for ten integer "
+         "kinds, From/As for float64/float32. non-trivial = the exact products a*b and a*10^D are representable (class +fits: the exact-"
+         "arithmetic oracle applies to Mul/Div/Mod too); distinct = distinct case text",
+    trivial_class=r"(overflow|^bad$|^exn$)",
+    trusted_base=["f128 operands are built with FromString and read back with String (exact decimal text)",
+                  "float From/As are checked against the property's tolerance with exact rationals (no model of the float arithmetic)"],
+    assumptions=["amd64: int is 64 bits"],
+)
 
 # properties not (yet) claimed, with the reason; an entry is dropped automatically once the property is in PROPS
 NOT_APPLICABLE = {
@@ -116,6 +128,16 @@ NOT_APPLICABLE = {
 }
 
 MANIFEST_TEXT = {
+    "C03": dict(
+        level_text="Proof (f64): Add/Sub exact; Mul and Div = exact result truncated toward zero; Mod = a - b*trunc(a/b); Trunc toward zero, "
+                   "Ceil toward +infinity, Round to nearest with halves away from zero; Abs/Min/Max/Inc/Dec; From(v) = v*10^D and "
+                   "As/CheckedAs(From v) = v for every integer kind -- Coq theorems for every multiplier 10..10^16 and all operands whose "
+                   "exact results are representable, over a model with explicit int64 wrap. f128 (same formulas over the proved Int128 "
+                   "operations of C01, plus Int128 division) and the float conversions are decided per run: correspondence for every "
+                   "method in all 16 configurations and an exact big-integer/rational oracle on the implementation's answers.",
+        level_note="Trusted: Coq kernel, extraction, drivers, harness; model hand-written, tied by correspondence on sampled operands; "
+                   "f128 theorems await the C01 division theorems; float conversions are only tolerance-checked.",
+        technique="Coq proof (lia/nia with truncated division) on a hand-written Gallina model + differential correspondence check"),
     "C07": dict(
         level_text="Proof: for every history of Insert/Remove/Reorganize/Clear, every threshold and rational coordinates (all ints and finite "
                    "floats), the stored multiset and Size equal the list specification, the invariant 'every stored node is Contains-inside the "
